@@ -85,6 +85,21 @@ def build(tier, rnd):
         for _ in range(k3):
             a, b, c = rnd.choice(P), rnd.choice(P), rnd.choice(P)
             cases.append((name, pre + "%s(%s, %s, %s)" % (call, a, b, c), legacy))
+    # prototype chains of every small shape (straight, self-cycle, 2-cycle, a lead-in of 1..2 objects into a cycle) x access forms:
+    # finite object graphs on which member lookup, calls, rendering, comparison and iteration must end
+    SHAPES = {"straight": "def a = <*x = 1*>; def b = <*_proto_ = a*>; def c = <*_proto_ = b*>",
+              "self": "def c = <*x = 1*>; c->_proto_ = c",
+              "two": "def a = <*x = 1*>; def c = <*_proto_ = a*>; a->_proto_ = c",
+              "lead1": "def a = <*x = 1*>; def b = <*_proto_ = a*>; a->_proto_ = b; def c = <*_proto_ = a*>",
+              "lead2": "def a = <*x = 1*>; def b = <*_proto_ = a*>; a->_proto_ = b; def d = <*_proto_ = b*>; def c = <*_proto_ = d*>",
+              "nonobject": "def c = <*_proto_ = 5*>", "listproto": "def c = <*_proto_ = [1]*>"}
+    ACCESS = ["c->x", "c->missing", "c['x']", "c['missing']", "c['missing', 42]", "c->missing()", "c->x()", "string(c)", "c == c", "c in [c]", "[k for k in c]",
+              "for k in c do k end", "c->missing = 1; c->missing", "length(c)", "c !> string()", "keys(c)", "<<c>>", "<<<c => 1>>>[c]", "c is empty", "def d = c; d->x",
+              "c->_proto_->missing", "type(c)", "c < c", "sorted([c, c])", "object(c)", "map(c)", "list(c)"]
+    for sn, sh in SHAPES.items():
+        for ac in ACCESS:
+            cases.append(("proto:" + sn, "%s; %s" % (sh, ac), False))
+            cases.append(("proto:" + sn, "%s; do %s catch all 0 end" % (sh, ac), False))
     for f in FORMS1:
         for a in P:
             cases.append((f, f.replace("$a", a), False))
